@@ -3,7 +3,10 @@
 import sys, os, re
 sys.path.insert(0, os.path.join(os.path.dirname(__file__), '..'))
 from rules.lib.mir import Program, dump_fn
-facts = os.environ.get('FACTS', os.path.join(os.path.dirname(__file__), '..', '.cache', 'facts-P'))
+import hashlib
+_repo = os.environ.get('VERIF_REPO', '/repo')
+_sfx = '' if _repo == '/repo' else '-' + hashlib.sha1(_repo.encode()).hexdigest()[:8]
+facts = os.environ.get('FACTS', os.path.join(os.path.dirname(__file__), '..', '.cache', 'facts-P' + _sfx))
 p = Program(facts)
 if len(sys.argv) > 2 and sys.argv[1] == '-l':
     for path in sorted(p.fns):
